@@ -151,12 +151,12 @@ def run_request(variant, pseed, fault=None, cseed=0, keep=False):
 _DRY = {}
 
 
-def dry(variant, pseed):
-    key = (variant, pseed)
+def dry(variant, pseed, cseed=0):
+    key = (variant, pseed, cseed)
     if key not in _DRY:
         if len(_DRY) > 4000:
             _DRY.clear()
-        w, rep, exc, xch, req = run_request(variant, pseed)
+        w, rep, exc, xch, req = run_request(variant, pseed, cseed=cseed)
         classes = [classify(e[2]) for e in xch]
         steps = []
         counts = {}
